@@ -183,7 +183,7 @@ class Interp:
         self.procs = []            # [prio, pinst idx]
         self.inst_prio = {}        # pinst idx -> last explicit priority
         self.enabled = True
-        self.pending = []
+        self.fifo = []
         self.reg_c = set()         # registered component insts (idx)
         self.reg_p = set()         # registered processor insts (idx)
         self.where = {}            # inst idx -> entity id
@@ -195,6 +195,10 @@ class Interp:
         self.routes = set()
         self.mut_ops = 0
         self.flags = set()
+        self.rel_stack = []        # enables whose real call is running
+        self.nlife = Counter()
+        self.probe_snap = {}
+        self.snap_at = {}
         self.life_ok = False       # on_remove scripts allowed right now
         self.in_life = 0
         self.nremoved = Counter()
@@ -210,6 +214,31 @@ class Interp:
             entry = (kind, label) + tuple(rest)
         self.trace.add('cb', *entry)
         self.log.append((self.depth, entry))
+        if self.rel_stack:
+            # who listens to 'probe' at the instant this callback starts
+            self.snap_at[len(self.log) - 1] = [
+                t[1] for t in self.probe_targets(0)]
+            if kind == 'probe' and rest[0] not in self.probe_snap:
+                # listeners registered when this event's delivery starts
+                self.probe_snap[rest[0]] = self.probe_targets(rest[0])
+        if (kind == 'life' and self.rel_stack
+                and self.depth == self.rel_stack[-1]['depth']):
+            # delivered by a release: the callback may re-enter the world
+            # (a silent batch: disable; attach/detach; enable)
+            n = self.nlife[label]
+            self.nlife[label] += 1
+            script = self.sc.get('scripts', {}).get(f'lc:{label}:{n}')
+            if script:
+                self.probes['reentry_from_release_callback'] += 1
+                self.depth += 1
+                try:
+                    for op in script:
+                        if op[0] in ('disable', 'enable', 'add', 'remove',
+                                     'create', 'delete', 'delete_now',
+                                     'probe'):
+                            self.exec_op(op, nested=True)
+                finally:
+                    self.depth -= 1
         if (kind == 'life' and rest[0] == 'on_remove' and self.life_ok
                 and self.depth == 0):       # (reaping of process() itself)
             n = self.nremoved[label]
@@ -292,7 +321,7 @@ class Interp:
         if self.enabled:
             groups.append((list(entries), ordered))
         else:
-            self.pending.append(('grp', list(entries), ordered))
+            self.fifo.append(['grp', list(entries), ordered])
             self.probes['postponed_callback'] += len(entries)
 
     def detach(self, i, eid):
@@ -591,48 +620,102 @@ class Interp:
         self.check_log(start, [], ('C02',), 'disable')
 
     def op_enable(self, op, start):
-        pend = self.pending
-        self.pending = []
-        was = self.enabled
-        self.enabled = True
-        groups = []
-        for item in pend:
-            if item[0] == 'grp':
-                groups.append((item[1], item[2]))
-            else:                       # ('probe', token, had_listener)
-                tg = self.probe_targets(item[1])
-                if item[2] or not tg:
-                    groups.append((tg, False))
-                else:
-                    groups.append(('maybe', tg))
-        if len(pend) >= 2:
-            self.probes['enable_with_pending>=2'] += 1
+        """Release of the postponed callbacks.  The expectation is one
+        shared FIFO consumed in delivery order, also across nested enables
+        issued from callbacks of the release itself."""
         owner = ('C02', 'C07') if self.prop not in ('C02', 'C07') else (
             self.prop,)
+        for frame in self.rel_stack:        # what the outer drains did so far
+            self.flush(frame)
+        if len(self.fifo) >= 2:
+            self.probes['enable_with_pending>=2'] += 1
+        if self.rel_stack:
+            self.probes['nested_enable_in_release'] += 1
+        self.enabled = True
+        frame = {'depth': self.depth, 'pos': len(self.log), 'owner': owner}
+        self.rel_stack.append(frame)
         try:
-            with_b = self.call(
-                lambda: setattr(self.w, 'dispatch_enabled', True),
-                owner=owner, what='enable')
+            self.call(lambda: setattr(self.w, 'dispatch_enabled', True),
+                      owner=owner, what='enable')
         except Violation as v:
             if v.kind == 'op_raised':
                 v.kind = 'enable_raised'
             raise
-        # resolve 'maybe' groups against what was actually recorded
-        actual = [e for d, e in self.log[start:] if d == self.depth]
-        fixed = []
-        pos = 0
-        for g in groups:
-            if g[0] == 'maybe':
-                tg = g[1]
-                got = actual[pos:pos + len(tg)]
-                if Counter(got) == Counter(tg):
-                    fixed.append((tg, False))
-                    pos += len(tg)
+        finally:
+            self.rel_stack.pop()
+        self.flush(frame)
+        if 'k4_shape' in self.flags and 'K4' in self.tolerate:
+            self.fifo = []
+        elif not self.rel_stack and self.enabled:
+            # everything postponed must have been delivered by now
+            while self.fifo and self.fifo[0][0] == 'probe':
+                self.close_probe(self.fifo.pop(0), owner)
+            if self.fifo:
+                self.fail(owner, 'callback_missing', f'enable returned but '
+                          f'postponed callbacks were not delivered: '
+                          f'{[x[1] for x in self.fifo[:3]]}')
+
+    def flush(self, frame):
+        while frame['pos'] < len(self.log):
+            d, entry = self.log[frame['pos']]
+            frame['pos'] += 1
+            if d == frame['depth'] and not entry[0] == 'proc':
+                self.consume(entry, frame['owner'],
+                             self.snap_at.get(frame['pos'] - 1))
+
+    def consume(self, entry, owner, listeners_now=None):
+        if 'k4_shape' in self.flags and 'K4' in self.tolerate:
+            return                      # callback oracle is off (K4)
+        while self.fifo:
+            head = self.fifo[0]
+            if head[0] == 'probe':
+                if entry[0] == 'probe' and entry[2] == head[1]:
+                    head[4] = self.probe_snap.get(head[1])
+                    head[3].append(entry)
+                    return
+                self.close_probe(self.fifo.pop(0), owner, listeners_now)
+                continue
+            entries, ordered = head[1], head[2]
+            if ordered:
+                ok = bool(entries) and entries[0] == entry
+                if ok:
+                    entries.pop(0)
             else:
-                fixed.append(g)
-                pos += len(g[0])
-        self.check_log(start, fixed, owner, 'enable (release of postponed '
-                       'callbacks)')
+                ok = entry in entries
+                if ok:
+                    entries.remove(entry)
+            if not ok:
+                later = any(h[0] == 'grp' and entry in h[1]
+                            for h in self.fifo[1:])
+                self.fail(owner, 'callback_order' if later
+                          else 'callback_extra',
+                          f'release delivered {entry} while the next '
+                          f'postponed callback(s) in operation order are '
+                          f'{entries}')
+            if not entries:
+                self.fifo.pop(0)
+            return
+        kind = 'callback_extra' if self.enabled else \
+            'delivered_while_disabled'
+        self.fail(owner, kind, f'release delivered {entry}, nothing was '
+                  f'postponed any more')
+
+    def close_probe(self, item, owner, listeners_now=None):
+        _, token, had, got, targets = item
+        if targets is None and listeners_now is not None:
+            # nobody was called: the listeners are those registered when
+            # the next callback of the release started
+            targets = [('probe', lab, token) for lab in listeners_now]
+        if targets is None:
+            targets = self.probe_targets(token)
+        if not got and not had:
+            return                      # name unknown when dispatched: may drop
+        if Counter(got) != Counter(targets):
+            missing = list((Counter(targets) - Counter(got)).elements())
+            self.fail(owner, 'callback_missing' if missing else
+                      'callback_extra', f'postponed probe {token}: delivered '
+                      f'to {[g[1] for g in got]}, listeners at delivery time '
+                      f'{[t[1] for t in targets]}')
 
     def op_probe(self, op, start):
         _, token = op
@@ -645,7 +728,7 @@ class Interp:
             if tg:
                 self.probes['probe_delivered'] += 1
         else:
-            self.pending.append(('probe', token, bool(tg)))
+            self.fifo.append(['probe', token, bool(tg), [], None])
         self.check_log(start, groups, ('C02',), 'dispatch(probe)')
 
     def default_prio(self, pi):
@@ -892,7 +975,7 @@ class Interp:
     def op_clear(self, op, start):
         if self.depth:
             return 'skip'
-        lost = len(self.pending)
+        lost = len(self.fifo)
         groups = []
         exp = []
         for eid, row in self.ents.items():
@@ -912,12 +995,12 @@ class Interp:
             if 'K1' in self.tolerate:
                 if lost:
                     self.known['K1'] += 1
-                self.pending = []
+                self.fifo = []
             else:
                 if exp:
-                    self.pending.append(('grp', exp, False))
+                    self.fifo.append(['grp', list(exp), False])
                 for e in pexp:
-                    self.pending.append(('grp', [e], True))
+                    self.fifo.append(['grp', [e], True])
         self.call(lambda: self.w.clear(), owner=('C01', 'C02'),
                   what='clear')
         if self.ents:
@@ -967,7 +1050,7 @@ class Interp:
             repr(sorted((repr(k), sorted(v.items()))
                         for k, v in self.ents.items())),
             repr(sorted(map(repr, self.dead))), repr(self.procs),
-            self.enabled, len(self.pending)))
+            self.enabled, len(self.fifo)))
 
     def _sweep(self, w, A, strict_cb):
         qtypes = [(-1, A.Root)] + sorted(A.classes.items())
@@ -1092,10 +1175,10 @@ class Interp:
                 if reg != (j in self.reg_p):
                     self.fail('C07', 'lifecycle', f'is_handler(p{j}) = '
                               f'{reg}, in world: {j in self.reg_p}')
-            if self.enabled and self.pending:
+            if self.enabled and self.fifo and not self.rel_stack:
                 self.fail('C02', 'callback_missing',
                           f'dispatching is enabled but postponed callbacks '
-                          f'were never delivered: {self.pending[:4]}')
+                          f'were never delivered: {self.fifo[:4]}')
         if bool(w.dispatch_enabled) != self.enabled:
             self.fail(('C02',), 'flag_wrong', f'dispatch_enabled = '
                       f'{w.dispatch_enabled}, expected {self.enabled}')
@@ -1527,6 +1610,23 @@ def generate(prop, run_seed, tier='quick', tolerate=frozenset()):
                     if script:
                         scripts[f'proc:{pi}:{cnt}'] = script
         sh.apply(op)
+    # re-entry from callbacks of a release (silent batches)
+    if crng.random() < {'C02': .4, 'C05': .1, 'C01': .1}.get(prop, 0):
+        hs = [i for i in range(len(cfg['insts']))]
+        for i in rng.sample(hs, min(len(hs), rng.randint(1, 3))):
+            k = rng.choice([0, 0, 1])
+            body = []
+            for _ in range(rng.randint(1, 2)):
+                nop = gen_op(rng.choice(['add', 'add_replace', 'remove',
+                                         'create', 'delete_now', 'probe']),
+                             sh, rng, cfg, state)
+                if nop is not None:
+                    body.append(nop)
+            if not body:
+                continue
+            if rng.random() < .65:
+                body = [['disable']] + body + [['enable']]
+            scripts[f'lc:c{i}:{k}'] = body
     # cascades: an on_remove callback asks for the deferred deletion of
     # another entity while the deletion pass of process() is running
     cascade_p = {'C05': .45, 'C02': .15, 'C01': .1}.get(prop, 0)
@@ -1626,7 +1726,8 @@ PROBES = {
             'detach_route.clear', 'attach_while_disabled',
             'detach_while_disabled', 'enable_with_pending>=2',
             'clear_while_disabled', 'handler_without_on_remove_detached',
-            'same_instance_reattached', 'probe_delivered'],
+            'same_instance_reattached', 'probe_delivered',
+            'reentry_from_release_callback', 'nested_enable_in_release'],
     'C05': ['touch.remove_last_component', 'touch.remove_some', 'touch.add',
             'touch.delete_again', 'touch.delete_immediate',
             'frames_after_failure', 'reap>=2_entities_one_frame',
